@@ -363,6 +363,19 @@ impl<'a> Eval<'a> {
                 }
                 Ok(V::Text(inner.chars().collect()))
             }
+            "ByteList" => {
+                // the one-quote form only: every ASCII character spells its own byte; the numeric forms (three or more
+                // quotes) and escapes are the business of C14
+                let n = text.len();
+                if n < 2 || !text.starts_with('\'') || !text.ends_with('\'') {
+                    return Err(Stop::Undefined("literal-kind"));
+                }
+                let inner = &text[1..n - 1];
+                if inner.contains('\'') || inner.contains('\\') || !inner.is_ascii() {
+                    return Err(Stop::Undefined("byte-literal-form"));
+                }
+                Ok(V::Bytes(inner.bytes().collect()))
+            }
             "Symbol" => Ok(V::Sym(symbol_value(text.trim_start_matches(':')))),
             "Unit" => Ok(V::Unit),
             "True" => Ok(V::True),
